@@ -1,8 +1,7 @@
 \* simulation: random histories of length 12 over 3 objects and 5 byte strings
-SPECIFICATION Spec
+SPECIFICATION SimSpec
 CONSTANTS
   Regs <- MCRegs3
   Pool <- MCPool5
   Impl = "fixed"
   MaxHist = 12
-CONSTRAINT Emit
